@@ -403,6 +403,6 @@ def check_chern(case):
 
 
 SUBS = [
-    Sub("sumrule", sum_case, check_sumrule, quick=240, thorough=4000),
-    Sub("chern", chern_case(), check_chern, quick=32, thorough=640, budget_quick=80.0, budget_thorough=500.0),
+    Sub("sumrule", sum_case, check_sumrule, quick=240, thorough=4000, budget_quick=150.0, budget_thorough=900.0),
+    Sub("chern", chern_case(), check_chern, quick=32, thorough=640, budget_quick=200.0, budget_thorough=900.0),
 ]
